@@ -226,6 +226,8 @@ def run(ctx):
                 if nn not in refs:
                     refs[nn] = fresh_run(ctx, "ref_" + nn, *job_for(descs, nn))[0]
             hist.append(["forward", "none"])
+            hist.append(["forward", "forward"])          # the same description twice: nothing of the first run is remembered
+            hist.append(["none", "forward", "forward"])
         hist.append(["tutorial", "clibrary"])
         hist.append(["pointers-cxx", "pointers-c", "pointers-cxx"])
         # the same description in both languages, both orders (language specific statement clauses)
